@@ -1,0 +1,62 @@
+//go:build verif
+// +build verif
+
+// Contracts for deductive verification (govc, /verif). Comment-only file.
+
+package xpoa
+
+// ---- The XPoA slot function (closed form). Times in milliseconds; n validators.
+// A term lasts period*n*blockNum; validator pos owns the window
+// [pos*period*blockNum, (pos+1)*period*blockNum) of the term; inside it block
+// slot bp in 1..blockNum covers [(bp-1)*period, bp*period).
+//
+//@ macro xpT(ts) = ts / 1000000
+//@ macro xpCfgOK(s) = s.period >= 1 && s.blockNum >= 1
+//@ macro xpRes(s, ts, n, term) = xpT(ts) - (term - 1) * (s.period * n * s.blockNum)
+//@ opaque spec func xpoaSlot(s *xpoaSchedule, ts int, n int, term int, pos int, bp int) bool =
+//@   term >= 1 && 0 <= xpRes(s, ts, n, term) && xpRes(s, ts, n, term) < s.period * n * s.blockNum
+//@   && pos >= 0 && pos * (s.period * s.blockNum) <= xpRes(s, ts, n, term) && xpRes(s, ts, n, term) < (pos + 1) * (s.period * s.blockNum)
+//@   && bp >= 1 && (bp - 1) * s.period <= xpRes(s, ts, n, term) - pos * (s.period * s.blockNum) && xpRes(s, ts, n, term) - pos * (s.period * s.blockNum) < bp * s.period
+
+//@ func xpoaSchedule.minerScheduling
+//@   property C16
+//@   requires cfg: xpCfgOK(s)
+//@   reveals xpoaSlot
+//@   ensures slot: timestamp >= 0 && length >= 1 ==> xpoaSlot(s, timestamp, length, term, pos, blockPos)
+
+//@ lemma xpoa_slot_unique: forall s *xpoaSchedule, ts int, n int, t1 int, p1 int, b1 int, t2 int, p2 int, b2 int :: xpCfgOK(s) && ts >= 0 && n >= 1 && xpoaSlot(s, ts, n, t1, p1, b1) && xpoaSlot(s, ts, n, t2, p2, b2) ==> t1 == t2 && p1 == p2 && b1 == b2
+//@   property C16
+//@   reveals xpoaSlot
+//@ lemma xpoa_slot_bounds: forall s *xpoaSchedule, ts int, n int, t int, p int, b int :: xpCfgOK(s) && ts >= 0 && n >= 1 && xpoaSlot(s, ts, n, t, p, b) ==> 0 <= p && p < n && 1 <= b && b <= s.blockNum
+//@   property C16
+//@   reveals xpoaSlot
+//@ lemma xpoa_slot_monotone: forall s *xpoaSchedule, ts1 int, ts2 int, n int, t1 int, p1 int, b1 int, t2 int, p2 int, b2 int :: xpCfgOK(s) && 0 <= ts1 && ts1 <= ts2 && n >= 1 && xpoaSlot(s, ts1, n, t1, p1, b1) && xpoaSlot(s, ts2, n, t2, p2, b2) ==> t1 < t2 || (t1 == t2 && (p1 < p2 || (p1 == p2 && b1 <= b2)))
+//@   property C16
+//@   reveals xpoaSlot
+//@ lemma xpoa_slot_width: forall s *xpoaSchedule, ts1 int, ts2 int, n int, t int, p int, b int :: xpCfgOK(s) && 0 <= ts1 && ts1 <= ts2 && n >= 1 && xpoaSlot(s, ts1, n, t, p, b) && xpoaSlot(s, ts2, n, t, p, b) ==> xpT(ts2) - xpT(ts1) < s.period
+//@   property C16
+//@   reveals xpoaSlot
+//@ lemma xpoa_slot_hit: forall s *xpoaSchedule, n int, t int, p int, b int :: xpCfgOK(s) && n >= 1 && t >= 1 && 0 <= p && p < n && 1 <= b && b <= s.blockNum ==> xpoaSlot(s, ((t - 1) * (s.period * n * s.blockNum) + p * (s.period * s.blockNum) + (b - 1) * s.period) * 1000000, n, t, p, b)
+//@   property C16
+//@   reveals xpoaSlot
+
+// The validator list in force for a block: a function of its arguments and of
+// the (unchanging) ledger.
+//@ func xpoaSchedule.GetLocalValidates
+//@   noverify
+//@   pure
+
+// The local leader for a block is the validator the slot function names at the
+// block's own timestamp; "" means no leader could be determined.
+//@ func xpoaSchedule.GetLocalLeader
+//@   property C16
+//@   pure
+//@   requires cfg: xpCfgOK(s)
+//@   ensures leader_is_scheduled: timestamp >= 0 && result != "" ==> (exists t int, p int, b int :: xpoaSlot(s, timestamp, len(s.GetLocalValidates(timestamp, round, storage)), t, p, b)
+//@       && 0 <= p && p < len(s.GetLocalValidates(timestamp, round, storage)) && s.GetLocalValidates(timestamp, round, storage)[p] == result)
+
+// A block is accepted only from the leader entitled at the block's own timestamp; never with an empty proposer.
+//@ func xpoaConsensus.CheckMinerMatch
+//@   property C16
+//@   requires cfg: xpCfgOK(x.election)
+//@   ensures entitled_producer: result0 ==> str(block.GetProposer()) != "" && x.election.GetLocalLeader(block.GetTimestamp(), block.GetHeight(), block.GetConsensusStorage()) == str(block.GetProposer())
